@@ -372,11 +372,18 @@ func (s *strictStub) UnmarshalJSON(data []byte) error {
 }
 
 func (fi *FuncInfo) argWrapper() func(reflect.Value) any {
-	strict := fi.strictFields && fi.Argument != nil && !fi.Argument.Implements(strictType)
+	// If the argument type (or a pointer to it, which is what the wrapper
+	// receives) has its own DisallowUnknownFields method, UnmarshalParams
+	// enforces strict decoding itself -- but only if it gets to see the
+	// value. The array stub hides it, so in that case the stub must be given
+	// a strict decoder explicitly.
+	selfStrict := fi.Argument != nil && (fi.Argument.Implements(strictType) ||
+		reflect.PointerTo(fi.Argument).Implements(strictType))
+	strict := fi.strictFields && fi.Argument != nil && !selfStrict
 	names := fi.posNames // capture so the wrapper does not pin fi
 	array := len(names) != 0 && fi.allowArray
 	switch {
-	case strict && array:
+	case (strict || selfStrict) && array:
 		return func(v reflect.Value) any {
 			return &arrayStub{v: &strictStub{v: v.Interface()}, posNames: names}
 		}
